@@ -46,6 +46,9 @@ def build(env, kind: str, name: str, strlen: Optional[int] = None) -> Any:
         return {'a': env.int(name + ':da')}
     if kind == 'dict2':
         return {'a': env.int(name + ':da'), 'b': env.int(name + ':db')}
+    if kind == 'nest':
+        # nesting depth 3 with every scalar kind inside
+        return {'a': [env.int(name + ':n0'), {'b': None, 'c': env.str(name + ':n1', strlen), 'd': [env.bool(name + ':n2'), []]}], 'e': {}}
     raise ValueError(kind)
 
 
@@ -100,6 +103,10 @@ def normalise(value: Any, default: Optional[Callable[[Any], Any]] = None, depth:
 UNDECODABLE = '{"jsonrpc": '      # a real text json.loads rejects; the wire model's loader rejects it as well
 
 
+def _reject_constant(name):
+    raise ValueError(f'{name} is not JSON')
+
+
 class Wire:
     """Either the value-level wire model (symbolic side) or the real json text layer (`env.real`)."""
 
@@ -132,7 +139,8 @@ class Wire:
 
     def decode(self, text: Any) -> Any:
         if self.real:
-            return json.loads(text)
+            # strict JSON: Python's json would silently accept the non-JSON constants NaN / Infinity / -Infinity
+            return json.loads(text, parse_constant=_reject_constant)
         if not isinstance(text, Box):
             raise TypeError(f'wire model: decode got {type(text).__name__}')
         return text.value
@@ -172,6 +180,8 @@ def wf_response_object(r: Any) -> Optional[str]:
     i = r['id']
     if not (i is None or isinstance(i, str) or is_number(i)):
         return 'id-bad-type'
+    if isinstance(i, float) and (i != i or i == float('inf') or i == float('-inf')):
+        return 'id-not-a-json-number'        # NaN / Infinity have no JSON representation
     if ('result' in r) == ('error' in r):
         return 'result-error-not-exactly-one'
     if 'error' in r:
